@@ -17,6 +17,9 @@ ODD_PATHS = ["/v1/unknown", "/v1/backends/", "/", "/v1/health/", "/v1", "/V1/bac
 TOKENS = ["-", "s3cr3t", "tok en", "Bearer", "t"]
 NETS4 = ["10.0.0.0/8", "192.168.1.0/24", "192.168.1.5", "203.0.113.0/30", "10.1.2.3/8", "0.0.0.0/0", "127.0.0.1"]
 NETS6 = ["2001:db8::/32", "::1", "fe80::/10", "2001:db8:0:1::/64", "2001:db8:0:1::10", "2001:db9:5::7", "::2"]
+# ranges that share their first address: a narrower one listed before (or after) a wider one
+NESTED = [["203.0.113.0/28", "203.0.113.0/24"], ["10.0.0.0", "10.0.0.0/8"], ["2001:db8::/64", "2001:db8::/32"], ["192.168.1.0/30", "192.168.1.0/24", "192.168.0.0/16"],
+          ["2001:db8::", "2001:db8::/112"], ["10.1.0.0/16", "10.0.0.0/8"]]
 BADNETS = ["not-an-ip", "10.0.0.0/33", "10.0.0/8", "10.0.0.0/", "/8", "2001:db8::/129", "1.2.3.4.5", "", " ", "\t", "", " "]
 
 
@@ -84,6 +87,14 @@ def gen_episode(rng, long=False):
         deny = rng.sample(NETS4 + NETS6, rng.randint(0, 2))
         if rng.random() < 0.2:
             (allow if rng.random() < 0.5 else deny).insert(rng.randint(0, 1), rng.choice(BADNETS))
+        if rng.random() < 0.3:
+            nest = list(rng.choice(NESTED))
+            if rng.random() < 0.3:
+                nest.reverse()
+            if rng.random() < 0.5:
+                deny = nest + deny[:1]
+            else:
+                allow = nest + allow[:1]
     fmt = lambda l: ",".join("%s~%s" % (enc(x) if x else "%00", parsed_net(x)) for x in l)
     ops = ["adm new %s A=%s D=%s" % (enc(tok), fmt(allow), fmt(deny))]
     names = ["a", "b", "c"]
